@@ -25,6 +25,7 @@ RULE = ('Legacy NDNApp + scripted producer on the virtual loop. Object: unsegmen
 ASSUMPTIONS = [
     'the producer marks at least the last segment with FinalBlockId (otherwise the end of the object is undefined)',
     'responses are immediate; a lost response is simply not sent',
+    'retry_times=0 is exercised only without losses: nothing timed out, so the fetch must deliver the object (every Interest sent once)',
 ]
 
 PREFIX = [net.comp('obj')]
@@ -53,7 +54,8 @@ def run_case(case):
 
 def _run(sim, case, r):
     N = case['n']                       # 0 => unsegmented object
-    rt = case['retry']
+    rt_arg = case['retry']
+    rt = max(1, rt_arg)                  # retry_times=0: 'no retry' - every Interest is still sent once (see ASSUMPTIONS)
     version = [T.enc_tlv(54, T.enc_nni(case['version']))] if case['version'] is not None else []
     base = PREFIX + version
     last = N - 1
@@ -131,7 +133,7 @@ def _run(sim, case, r):
 
     async def consume():
         try:
-            async for c in segment_fetcher(sim.app, list(ask), timeout=TIMEOUT_MS, retry_times=rt, validator=validator):
+            async for c in segment_fetcher(sim.app, list(ask), timeout=TIMEOUT_MS, retry_times=rt_arg, validator=validator):
                 out.append(None if c is None else bytes(c))
             box['end'] = 'done'
         except Exception as e:
@@ -228,18 +230,18 @@ def _run(sim, case, r):
     nontrivial = knz or any_recover or any_exh
     r.key = (N, case['disc_k'] % N if N else -1, rt, any_recover, any_exh, str(fault), case['final_on_all'],
              case['version'] is not None) if nontrivial else None
-    r.classes = (f'N:{N}', f'r:{rt}', 'k!=0' if knz else 'k=0', 'recover' if any_recover else '-', 'exhaust' if any_exh else '-',
+    r.classes = (f'N:{N}', f'r:{rt_arg}', 'k!=0' if knz else 'k=0', 'recover' if any_recover else '-', 'exhaust' if any_exh else '-',
                  f'fault:{fault[0] if fault else "none"}')
 
 
 @st.composite
 def _case(draw):
     n = draw(st.integers(0, 7))
-    rt = draw(st.integers(1, 4))
+    rt = draw(st.sampled_from([0, 1, 1, 2, 2, 3, 3, 4]))
     rows = ['d'] + [str(i) for i in range(n)]
     loss = {}
     for row in rows:
-        mode = draw(st.sampled_from(['none', 'none', 'none', 'r-1', 'r', 'random']))
+        mode = draw(st.sampled_from(['none', 'none', 'none', 'r-1', 'r', 'random'])) if rt else 'none'
         if mode == 'r-1':
             loss[row] = [True] * (rt - 1)
         elif mode == 'r':
